@@ -1,4 +1,4 @@
 SPECIFICATION Spec
 CONSTANT Thorough = FALSE
-INVARIANTS SplitIsSplit Unique Consecutive ScaleInvariant MissingIsWhole
+INVARIANTS SplitIsSplit Unique Consecutive ScaleInvariant MissingIsWhole LoopFresh LoopOrderMatters
 CHECK_DEADLOCK FALSE
